@@ -25,7 +25,10 @@ class FakeModule:
         self.geom_settings.addressbits = max(11, self.geom_settings.addressbits)
 
 
-def model_bench(name, phy="sdr_1_1", bankbits=1, rowbits=2, colbits=4, dfi_databits=8, read_latency=None, controller_a10_skip=False):
+def model_bench(name, phy="sdr_1_1", bankbits=1, rowbits=2, colbits=4, dfi_databits=8, read_latency=None, controller_a10_skip=False,
+                abstract=False):
+    _args = dict(phy=phy, bankbits=bankbits, rowbits=rowbits, colbits=colbits, dfi_databits=dfi_databits, read_latency=read_latency,
+                 controller_a10_skip=controller_a10_skip)
     from litedram.phy.model import SDRAMPHYModel
     kw = dict(cfg.PHY_PRESETS[phy])
     kw["dfi_databits"] = dfi_databits
@@ -166,8 +169,15 @@ def model_bench(name, phy="sdr_1_1", bankbits=1, rowbits=2, colbits=4, dfi_datab
     c3 = Signal()
     top.comb += c3.eq(exp_hit & apseen.out & s.out)
     covers["watched_byte_read_after_an_auto_precharge_and_reactivation"] = c3
+    extra = {}
+    if abstract:
+        # large geometries: every bank memory keeps only the word the watched location lives in (address = {row, burst-aligned
+        # column index}, the model's own wraddr/rdaddr layout); other words return arbitrary data; models are replayed on the
+        # un-abstracted twin built by concrete_factory
+        extra = dict(abstract_memories=lambda mem: Cat(WC, WR), concrete_factory=partial(model_bench, name, **_args))
     b = bmc.Bench(name, top, inputs, consts={"WBANK": WB, "WROW": WR, "WCOL": WC, "WLANE": WL}, assumes=assumes, bads=bads,
-                  covers=covers, info=dict(phy=phy, bankbits=bankbits, rowbits=rowbits, colbits=colbits, wl=wl, rl=rl))
+                  covers=covers, info=dict(phy=phy, bankbits=bankbits, rowbits=rowbits, colbits=colbits, wl=wl, rl=rl,
+                                           memory_abstraction=bool(abstract)), **extra)
     b.watch = {"val": val, "rdv": vbits, "open0": opn[0]}
     return b
 
@@ -179,6 +189,9 @@ CONFIGS = {
     "ddr2_1_2": (dict(phy="ddr2_1_2", read_latency=2), 0, 18, "t"),
     "ddr4_1_4": (dict(phy="ddr4_1_4", read_latency=2, dfi_databits=8), 0, 16, "t"),
     "sdr_4banks": (dict(phy="sdr_1_1", read_latency=2, bankbits=2), 0, 16, "t"),
+    # 2048 columns (MT46H128M16 is such a module): JEDEC/controller column = {A11, A9..A0}, A10 = auto-precharge
+    "widecol_ddr_1_2_c11": (dict(phy="ddr_1_2", read_latency=2, rowbits=2, colbits=11, controller_a10_skip=True, abstract=True), 9, 12, "qt"),
+    "abs_ddr3_1_4_c10_r6": (dict(phy="ddr3_1_4", read_latency=3, dfi_databits=8, rowbits=6, colbits=10, abstract=True), 0, 14, "t"),
 }
 BENCHES = {n: partial(model_bench, n, **c[0]) for n, c in CONFIGS.items()}
 
